@@ -15,6 +15,8 @@ files; what it does fix is that a read "reproduces the same pinset" as the lates
                               read before (the latest pinset, or the same refusal);
  * `rot_backup_complete`   — … and old.0 lists every snapshot the folder listed, damaged ones included (kept for manual recovery);
  * `rot_cleaned`           — after a clean the data folder holds no snapshot;
+ * `import_replaces`       — ("import replaces whatever was there") `state import` of pinset c onto ANY folder succeeds and the offline
+                              read afterwards is c; rot_newest / rot_backup_complete hold for what the folder listed before;
  * `start_serves_latest`   — ("… or starting a peer on it …") a peer STARTED on a folder whose latest snapshot is intact serves that
                               snapshot's pinset. (Latest damaged: no clause — the statement does not say what a start on damaged
                               data serves; the model records what the code does, a fall-back to the newest snapshot that opens.)
@@ -37,7 +39,7 @@ inductive SRead where
   deriving DecidableEq, Repr
 
 inductive DOp where
-  | read | clean | save (c : Nat) | boot
+  | read | clean | save (c : Nat) | boot | imp (c : Nat)
   deriving DecidableEq, Repr
 
 structure DObs where
@@ -67,6 +69,7 @@ def damageClauses (absent : Bool) (l : DIn) (op : DOp) (o : DObs) : List (String
    | .save c =>
      if o.failed then [("save_refused_keeps", damagedLatest && o.off == o.pre && o.cnt == l.length && o.old0 == .absent)]
      else [("snapshot_offline_id", o.off == .pins c)]
+   | .imp c => [("import_replaces", !o.failed && o.off == .pins c)]
    | .clean => [("rot_cleaned", o.off == .absent || o.off == .nosnap)]) ++
   (match op, lat with
    | .read, _ => []
